@@ -8,6 +8,7 @@ import (
 	"io"
 	"io/fs"
 	"strings"
+	"syscall"
 
 	"github.com/ipfs/go-cid"
 	dagpb "github.com/ipld/go-codec-dagpb"
@@ -43,7 +44,8 @@ func (c12) Assumptions() []string {
 		"the injected error is recognised by errors.As/Is or by its unique token in the error text (wrapping without %w is not a false alarm); a hash mismatch reported by go-ipld-prime for corrupted bytes counts as the load error",
 		"for file nodes without BlockSizes (the reader must open children to learn their length) the prefix requirement is relaxed to 'a correct prefix no longer than the missing span's start', and a transient fault absorbed by a later successful load of the same block is accepted",
 		"an empty (zero-length) block is needed by a full sequential read like any other block: the read visits every block of the file in link order",
-		"only error-returning entry points are judged (native Lookup/Length cannot report an error)",
+		"entry points without an error result are judged only for what they can express: Length() must answer the true count or 0 (its one way to say 'could not count'), never a partial count; the typed Lookup is not judged",
+		"a cancelled context is a fault like a store that has gone away: blocks already loaded stay deliverable, the first block that still has to be loaded fails with the context's error (the simulated store honours LinkContext.Ctx), and a reader that has delivered everything still ends with io.EOF",
 		"the root block of the entity is available (otherwise nothing can be opened)",
 	}
 }
@@ -86,6 +88,11 @@ type faultPlan struct {
 	// scenario before install
 	cancelCtx bool
 	cancel    func()
+	// byBytes: no storage fault at all; the caller's context is cancelled
+	// BETWEEN two Reads, once afterBytes bytes have been delivered. Loaded data
+	// stays deliverable; the first block that still has to be loaded fails.
+	byBytes    bool
+	afterBytes int
 }
 
 // flavourErr returns the error value a real store might fail with. Code that
@@ -111,6 +118,12 @@ func flavourErr(f int, c string) error {
 		// back-end said): errors.Is(err, io.EOF) is true, err == io.EOF is not.
 		// It is a load error like any other, not an end of file.
 		return fmt.Errorf("read /blocks/%s: %w", c, io.EOF)
+	case 8:
+		// "already there": what a put-if-absent store, an O_EXCL create or a
+		// hard-link into place reports; errors.Is(err, fs.ErrExist) is true.
+		// For a reader it is an odd I/O error, for a writer a refused commit
+		// like any other - the block was NOT written by this call
+		return &fs.PathError{Op: "link", Path: "/blocks/" + c, Err: syscall.EEXIST}
 	case 4:
 		// what a visit-once / de-duplicating link loader returns for a block it
 		// refuses to hand out again; the traversal engine gives this value a
@@ -122,10 +135,13 @@ func flavourErr(f int, c string) error {
 }
 
 func (p faultPlan) String() string {
+	if p.byBytes {
+		return fmt.Sprintf("context cancelled between two Reads once %d bytes were delivered", p.afterBytes)
+	}
 	if p.flavour > 0 {
 		q := p
 		q.flavour = 0
-		return q.String() + " failing with " + []string{"", "io.ErrUnexpectedEOF", "*fs.PathError{fs.ErrNotExist}", "wrapped context.DeadlineExceeded", "traversal.SkipMe{}", "io.EOF", "context.Canceled", "an error wrapping io.EOF"}[p.flavour] + map[bool]string{true: " after really cancelling the context", false: ""}[p.cancelCtx]
+		return q.String() + " failing with " + []string{"", "io.ErrUnexpectedEOF", "*fs.PathError{fs.ErrNotExist}", "wrapped context.DeadlineExceeded", "traversal.SkipMe{}", "io.EOF", "context.Canceled", "an error wrapping io.EOF", "*fs.PathError{EEXIST}"}[p.flavour] + map[bool]string{true: " after really cancelling the context", false: ""}[p.cancelCtx]
 	}
 	if p.kth >= 0 && p.onward {
 		return fmt.Sprintf("%s@every load from #%d on", p.kind, p.kth)
@@ -158,6 +174,9 @@ func (p faultPlan) install(st *store.Store) func() []cid.Cid {
 	}
 	st.ReadPolicy = func(nth int, c cid.Cid) *store.ReadFault {
 		fire := false
+		if p.byBytes {
+			return nil
+		}
 		if p.kth >= 0 && p.onward {
 			fire = nth >= p.kth
 		} else if p.kth >= 0 {
@@ -245,8 +264,17 @@ func (c c12) Run(ts *tape.Set, tier Tier) *Result {
 
 // readSeq drives a sequential read to the end or the first error.
 func readSeq(rs io.Reader, bufs func() int, maxCalls int) (out []byte, err error, calls int) {
+	return readSeqHook(rs, bufs, maxCalls, nil)
+}
+
+// readSeqHook is readSeq with a callback before every Read (told how many
+// bytes were delivered so far).
+func readSeqHook(rs io.Reader, bufs func() int, maxCalls int, before func(delivered int)) (out []byte, err error, calls int) {
 	zero := 0
 	for calls < maxCalls {
+		if before != nil {
+			before(len(out))
+		}
 		k := bufs()
 		buf := make([]byte, k)
 		n, e := rs.Read(buf)
@@ -341,6 +369,7 @@ func (c12) runFile(ts *tape.Set, tier Tier) *Result {
 	// distinct non-root blocks, DFS order
 	var blocks []cid.Cid
 	firstStart := map[string]int64{}
+	firstStartL := map[string]int64{} // the same without optional occurrences, see below
 	occ := map[string]int{}
 	rootKey := root.KeyString()
 	// occurrences a read from offset a needs, with their start relative to a
@@ -369,6 +398,16 @@ func (c12) runFile(ts *tape.Set, tier Tier) *Result {
 		if rel, ok := needed(s); ok {
 			if _, have := firstStart[k]; !have {
 				firstStart[k] = rel
+			}
+			// an EMPTY block lying exactly at the position the reader was
+			// seeked to contributes no byte at or after it; whether a reader
+			// visits it depends on where it hangs (an empty child of the node
+			// being read: yes; the empty tail of a sibling subtree that ends
+			// there: no). Both are right, so such an occurrence is optional.
+			if !(s.Start == s.End && a > 0 && s.Start == a) {
+				if _, have := firstStartL[k]; !have {
+					firstStartL[k] = rel
+				}
 			}
 		}
 	}
@@ -469,7 +508,15 @@ func (c12) runFile(ts *tape.Set, tier Tier) *Result {
 					return
 				}
 			}
-			data, rerr, _ = readSeq(rs, func() int { return 1 + int(br.Next()%300) }, 4*len(content)+64)
+			var hook func(int)
+			if p != nil && p.byBytes {
+				hook = func(delivered int) {
+					if delivered >= p.afterBytes && p.cancel != nil {
+						p.cancel()
+					}
+				}
+			}
+			data, rerr, _ = readSeqHook(rs, func() int { return 1 + int(br.Next()%300) }, 4*len(content)+64, hook)
 			if p != nil && rerr != nil && rerr != io.EOF && rerr != errNoProgress && rerr != errTooManyCalls && len(data) <= len(content) && bytes.Equal(data, content[:len(data)]) {
 				// ---- the caller keeps using the SAME reader after the error.
 				// While the block is still missing a further Read must fail again
@@ -490,6 +537,19 @@ func (c12) runFile(ts *tape.Set, tier Tier) *Result {
 					retryFailure = fmt.Sprintf("a second Read on the same reader returned %d bytes although the block at offset %d is still unavailable", n, pos)
 				}
 				pos += n
+				if retryFailure == "" && br.Next()%2 == 0 {
+					// ... and asks the same reader where the file ends: the true
+					// length or an error, never a length made of what could be
+					// measured before the failure
+					end, se := rs.Seek(0, io.SeekEnd)
+					if se == nil && end != int64(len(fullContent)) {
+						retryFailure = fmt.Sprintf("after the load error Seek(0, SeekEnd) on the same reader returned (%d, nil); the file has %d bytes", end, len(fullContent))
+					}
+					if _, se := rs.Seek(a+int64(pos), io.SeekStart); se != nil && retryFailure == "" {
+						retryFailure = fmt.Sprintf("after the load error Seek(%d, SeekStart) on the same reader failed: %v", a+int64(pos), se)
+					}
+					res.probe("seek-end-on-same-reader-after-error")
+				}
 				if retryFailure == "" {
 					st.ReadPolicy = nil
 					rest, e2, _ := readSeq(rs, func() int { return 1 + int(br.Next()%300) }, 4*len(content)+64)
@@ -599,6 +659,14 @@ func (c12) runFile(ts *tape.Set, tier Tier) *Result {
 			plans = append(plans, faultPlan{kind: store.EIOOpen, kth: k, onward: true, flavour: 6, cancelCtx: true})
 		}
 	}
+	// no storage fault: the context is cancelled between two Reads, in the
+	// middle of the data (wherever that falls inside a loaded leaf), just before
+	// the last byte, and after the last byte
+	if !useAsBytes && len(content) > 0 {
+		for _, nb := range []int{1, len(content) / 3, len(content) / 2, len(content) - 1, len(content)} {
+			plans = append(plans, faultPlan{kind: store.EIOOpen, kth: 0, onward: true, cancelCtx: true, byBytes: true, afterBytes: nb})
+		}
+	}
 	sr := tape.NewSplitMix(subsetSeed)
 	for i := 0; i < 6 && len(blocks) >= 2; i++ {
 		n := 2 + int(sr.Next()%2)
@@ -645,6 +713,26 @@ func (c12) runFile(ts *tape.Set, tier Tier) *Result {
 		if retryFailure != "" {
 			fail("c12/file/same-reader-after-error", "%s", retryFailure)
 			break
+		}
+		if p.byBytes {
+			res.probe("context-cancelled-between-reads")
+			for _, e := range log {
+				if e.Kind == "ReadOpen" && e.Outcome == "ctx-done" {
+					if c, cerr := cid.Decode(e.Cid); cerr == nil {
+						hit = []cid.Cid{c}
+						break
+					}
+				}
+			}
+			if len(hit) == 0 {
+				// nothing had to be loaded after the cancellation: everything the
+				// reader holds stays deliverable and the end is the end
+				if rerr != io.EOF || !bytes.Equal(data, content) {
+					fail("c12/file/cancellation-withholds-loaded-data", "no block had to be loaded after the cancellation, yet the read returned %d/%d bytes, err=%v", len(data), len(content), rerr)
+					break
+				}
+				continue
+			}
 		}
 		if len(hit) == 0 {
 			// the fault never fired (e.g. the subset's blocks were behind an
@@ -696,6 +784,20 @@ func (c12) runFile(ts *tape.Set, tier Tier) *Result {
 				}
 			}
 			okLens = map[int64]bool{min: true}
+			minL := int64(-1)
+			for _, t := range p.targets {
+				if s, ok := firstStartL[t.KeyString()]; ok && (minL < 0 || s < minL) {
+					minL = s
+				}
+			}
+			if minL >= 0 {
+				okLens[minL] = true
+			} else if rerr == io.EOF && bytes.Equal(data, content) {
+				// the only needed occurrence of a faulted block was an optional
+				// one and the reader did not visit it
+				res.probe("optional-empty-block-at-seek-position-skipped")
+				continue
+			}
 			for _, t := range p.targets {
 				if zeroLen[t.KeyString()] {
 					res.probe("missing-empty-block")
@@ -1296,6 +1398,47 @@ func (c12) runDir(ts *tape.Set, tier Tier) *Result {
 		}
 		if res.Violation != nil {
 			break
+		}
+		// ---- lookups on the node that has just been LISTED under the fault:
+		// whatever the listing left behind in the node, a name below an
+		// unavailable shard still answers with the load error, and a name
+		// elsewhere with its link
+		if p.kth < 0 && !p.cancelCtx && len(hit) > 0 {
+			blockedSeen, freeSeen := 0, 0
+			for _, e := range model.Order {
+				want := model.LookupWith(e.Name, unavail)
+				if (want.Blocked && blockedSeen >= 3) || (!want.Blocked && freeSeen >= 2) {
+					continue
+				}
+				var got datamodel.Node
+				var lerr error
+				panicked, site, pmsg := guard(func() { got, lerr = lookup(n, e.Name) })
+				res.Execs++
+				if panicked {
+					fail("c12/lookup/panic@"+site, "lookup %q after a listing panicked: %s", e.Name, pmsg)
+					break
+				}
+				if want.Blocked {
+					blockedSeen++
+					if lerr == nil || isNotFoundResult(lerr) || !isLoadError(lerr) {
+						fail("c12/lookup/after-listing-loses-load-error", "the node was listed to the end with shard %s unavailable; a lookup of %q (below that shard) on the same node then returned (%v, %v) instead of the load error", shortCid(want.BlockedAt), e.Name, got, lerr)
+						break
+					}
+				} else {
+					freeSeen++
+					if lerr != nil {
+						fail("c12/lookup/after-listing-differs", "after a listing under the fault, lookup %q (not below an unavailable shard) failed: %v", e.Name, lerr)
+						break
+					} else if l, err := got.AsLink(); err != nil || !l.(cidlink.Link).Cid.Equals(want.Link) {
+						fail("c12/lookup/after-listing-differs", "after a listing under the fault, lookup %q returned %v, want %s", e.Name, l, want.Link)
+						break
+					}
+				}
+			}
+			res.probe("lookups-after-listing-under-fault")
+			if res.Violation != nil {
+				break
+			}
 		}
 		// ---- the store recovers: iterating the SAME node again must now
 		// yield every entry once and no error
